@@ -118,3 +118,28 @@ Example c19_nonvacuous_ps :
   /\ avc_build_seq_header (sps_nal sps_golden2) [40; 238; 60; 176]
      = Ok [23; 0; 0; 0; 0; 1; 100; 0; 31; 255; 225; 0; 10; 39; 100; 0; 31; 172; 86; 128; 180; 10; 25; 1; 0; 4; 40; 238; 60; 176].
 Proof. repeat split; vm_compute; reflexivity. Qed.
+
+(* ---- part D (HEVC): picture size of the basic H.265 SPS ---- *)
+From Lal Require Import Codec.CodecSpsHevcSpec Codec.CodecSpsHevcProofs.
+
+(* for every SPS of the H.265 7.3.2.2.1 encoder model (any profile_tier_level
+   with up to 6 sub-layers, chroma formats, conformance window, sub-layer
+   ordering info, any continuation), hevc.ParseSps succeeds from any context and
+   reports the coded size and the size inside the conformance window
+   (7.4.3.2.1, offsets in units of SubWidthC / SubHeightC) *)
+Theorem c19_dims_hevc : forall s c0, hevc_sps_ok s ->
+  exists c,
+    hevc_parse_sps (hevc_sps_nal s) c0 = Ok c /\
+    sps_get H_width c = hs_width s /\ sps_get H_height c = hs_height s /\
+    Z.of_N (sps_get H_outw c) = hspec_width s /\ Z.of_N (sps_get H_outh c) = hspec_height s.
+Proof. intros s c0 H. exact (dims_hevc s c0 H). Qed.
+Print Assumptions c19_dims_hevc.
+
+(* 1920x1088 coded, conformance window bottom offset 4 (4:2:0 -> 8 lines): 1920x1080;
+   the pinned tree reported the coded 1088 (fixed in lal) *)
+Example c19_nonvacuous_hevc :
+  let s := mk_hevc_sps_syntax 0 true (mk_ptl_syntax 0 false 1 1610612736 158329674399744 93 [])
+             0 1 false 1920 1088 (Some (0, 0, 0, 4)) 0 0 4 true [(4, 2, 0)] [0; 3; 0; 3; 0; 0] [false; true; true] in
+  hevc_sps_ok s /\ hspec_width s = 1920%Z /\ hspec_height s = 1080%Z
+  /\ exists c, hevc_parse_sps (hevc_sps_nal s) [] = Ok c /\ sps_get H_outh c = 1080 /\ sps_get H_height c = 1088.
+Proof. cbv zeta. repeat split; try (vm_compute; reflexivity). eexists. repeat split; vm_compute; reflexivity. Qed.
